@@ -63,7 +63,7 @@ PINS = {
               ('operator_dict.py', 'UnaryOperatorDict', '__call__')],
     'C17': POLY,
     'C18': [('matrixreps.py', None, 'matrix_rep'), ('matrixreps.py', None, 'ordering_matrix'), ('algebra.py', 'Algebra', 'matrix_basis'), ('multivector.py', 'MultiVector', 'asmatrix'),
-            ('multivector.py', 'MultiVector', 'frommatrix')],
+            ('multivector.py', 'MultiVector', 'frommatrix'), ('matrixreps.py', None, 'expr_as_matrix')],
     'C20': [('graph.py', None, 'encode'), ('graph.py', None, 'walker'), ('graph.py', 'GraphWidget', 'inplacereplace'),
             ('graph.py', 'GraphWidget', 'get_key2idx'), ('graph.py', 'GraphWidget', 'get_pre_subjects'),
             ('graph.py', 'GraphWidget', 'get_subjects'), ('graph.py', 'GraphWidget', 'get_draggable_points'),
